@@ -569,6 +569,8 @@ class Intrinsics:
         return recv.endswith(x)
 
     def m_str_join(self, P, recv, xs):
+        if isinstance(xs, seqs.SymSeq):
+            return Opaque('str')        # text of a message: not modelled
         xs = P.iterate(xs)
         if all(isinstance(x, str) for x in xs):
             return recv.join(xs)
